@@ -4,6 +4,7 @@ package main
 
 import (
 	"go/types"
+	"math/big"
 
 	"golang.org/x/tools/go/ssa"
 )
@@ -163,6 +164,69 @@ func registerMoreModels(u *Unit) {
 			up := c.Args[0].(VPtr)
 			fx.nilCheck(st, up.Ref, c.Pos, "URL receiver")
 			return fx.havoc("urlstr", types.Typ[types.String], tTrue)
+		})
+	// ---- syscall/js (js/wasm build): a js.Value is identified by its ref; its JavaScript type, string,
+	// integer and boolean readings are uninterpreted functions of the ref
+	u.reg("(syscall/js.Value).Type", "returns jstype(v): 0 undefined, 1 null, 2 boolean, 3 number, 4 string, 5 symbol, 6 object, 7 function", nil,
+		func(fx *FX, st *State, c *CallCtx) Val {
+			r := fx.def("jstype", app(SInt, "jstype", flatten(c.Args[0])[0]))
+			fx.assume(tTrue, and(le(num(0), r), le(r, num(7))))
+			fx.setBounds(r, bigZero, big.NewInt(7))
+			return VInt{r}
+		})
+	u.reg("(syscall/js.Value).String", "returns jsstring(v) (for non-strings a description such as <number: 1>); never panics", nil,
+		func(fx *FX, st *State, c *CallCtx) Val {
+			return VStr{fx.def("jsstring", app(SSeq, "jsstring", flatten(c.Args[0])[0]))}
+		})
+	u.reg("(syscall/js.Value).Int", "requires jstype(v) == 3 (panics otherwise); returns jsint(v), the number truncated to int", nil,
+		func(fx *FX, st *State, c *CallCtx) Val {
+			ref := flatten(c.Args[0])[0]
+			fx.oblige("pre", "js.Value.Int.number", st.PC, eq(app(SInt, "jstype", ref), num(3)), c.Pos, "js.Value.Int panics unless the value is a number")
+			r := fx.def("jsint", app(SInt, "jsint", ref))
+			lo, hi := typeBounds(types.Typ[types.Int])
+			fx.assume(tTrue, and(le(bigNum(lo), r), le(r, bigNum(hi))))
+			fx.setBounds(r, lo, hi)
+			return VInt{r}
+		})
+	u.reg("syscall/js.ValueOf", "for a Go string s returns a JavaScript string with jsstring == s; for a bool b a JavaScript boolean with jsbool == b; for a js.Value the value itself; other arguments: unconstrained", nil,
+		func(fx *FX, st *State, c *CallCtx) Val {
+			iv := c.Args[0].(VIface)
+			rt := c.C.Signature().Results().At(0).Type()
+			r := fx.havoc("jsval", rt, tTrue)
+			ref := flatten(r)[0]
+			strTag := num(u.typeTag(types.Typ[types.String]))
+			boolTag := num(u.typeTag(types.Typ[types.Bool]))
+			fx.assume(tTrue, implies(eq(iv.Tag, strTag), and(eq(app(SInt, "jstype", ref), num(4)), eq(app(SSeq, "jsstring", ref), sel(sel(st.Hs, iv.Box), num(0))))))
+			fx.assume(tTrue, implies(eq(iv.Tag, boolTag), and(eq(app(SInt, "jstype", ref), num(2)), app(SBool, "=", app(SBool, "jsbool", ref), intToBool(sel(sel(st.H, iv.Box), num(0)))))))
+			return r
+		})
+	u.reg("syscall/js.Global", "returns the JavaScript global object", nil,
+		func(fx *FX, st *State, c *CallCtx) Val {
+			return fx.havoc("jsglobal", c.C.Signature().Results().At(0).Type(), tTrue)
+		})
+	u.reg("syscall/js.FuncOf", "wraps a Go function for JavaScript: jsfuncid of the result is the function's id", nil,
+		func(fx *FX, st *State, c *CallCtx) Val {
+			r := fx.havoc("jsfunc", c.C.Signature().Results().At(0).Type(), tTrue)
+			fv := c.Args[0].(VFunc)
+			fx.assume(tTrue, eq(app(SInt, "jsfuncid", flatten(r)[0]), fv.Id))
+			return r
+		})
+	u.reg("(syscall/js.Value).Set", "sets property p of a JavaScript object (ghost: recorded as a registration when the value is a wrapped Go function)", nil,
+		func(fx *FX, st *State, c *CallCtx) Val {
+			name := c.Args[1].(VStr).T
+			iv := c.Args[2].(VIface)
+			// the boxed value is a js.Func struct whose first field is a js.Value
+			inner := sel(sel(st.H, iv.Box), num(0))
+			fx.jsSets = append(fx.jsSets, [2]T{name, app(SInt, "jsfuncid", inner)})
+			return VUnit{}
+		})
+	u.reg("(syscall/js.Type).String", "returns the name of a JavaScript type", nil,
+		func(fx *FX, st *State, c *CallCtx) Val {
+			return fx.havoc("jstypename", types.Typ[types.String], tTrue)
+		})
+	u.reg("invoke error.Error", "returns the text of an error (some string)", nil,
+		func(fx *FX, st *State, c *CallCtx) Val {
+			return fx.havoc("errtext", types.Typ[types.String], tTrue)
 		})
 	u.reg("time.Now", "returns some instant", nil,
 		func(fx *FX, st *State, c *CallCtx) Val {
